@@ -310,7 +310,7 @@ def oracle_c14(scn, raw, info):
 DESIGN_CFG = {
     # property: (quick cfg, thorough cfg) ; cfg = dict of constants for MC_Swarm
     'base': dict(Peers='{a, b}', NPieces=2, NBlocks='N2', EndGame=2, MaxUnchoked=1, OptRounds=3, KALimit=2, Pipeline='{2}', Rates='{0, 1}',
-                 Fuel=3, ConnFuel=1, TickFuel=0, MaxQ=1, HS0='TRUE', BFMenu='{{1, 2}, {1}}'),
+                 Fuel=3, ConnFuel=1, TickFuel=0, MaxQ=1, HS0='TRUE', BFMenu='{{1, 2}, {1}}', Own0='{}'),
 }
 ALL_INV = ('TypeOK OwnedImpliesStored NoCacheWhileChoked RxShape AnnouncedInOrder DeferredWhileChoked ReservedBacked '
            'AskOnlyAdvertisedAndLacked NoPanic PickSound SlotBound ViewAgreement KaBound')
@@ -345,7 +345,7 @@ def model_scripts(pid, n, kinds=None, fuel=7):
     with open(cfg, 'w') as f:
         f.write('SPECIFICATION GSpec\nCONSTANTS\n  Peers = {a, b}\n  NPieces = 2\n  NBlocks <- NB21\n  EndGame = 2\n  MaxUnchoked = 1\n  OptRounds = 3\n'
                 '  KALimit = 2\n  Pipeline = {2}\n  Rates = {0}\n  Fuel = %d\n  ConnFuel = 2\n  TickFuel = 0\n  MaxQ = 2\n  HS0 = FALSE\n'
-                '  BFMenu = {{1, 2}, {1}, {2}, {}}\n  FrameKinds = {%s}\nINVARIANTS Emit NoPanic ReservedBacked OwnedImpliesStored\nCHECK_DEADLOCK FALSE\n'
+                '  BFMenu = {{1, 2}, {1}, {2}, {}}\n  Own0 = {}\n  FrameKinds = {%s}\nINVARIANTS Emit NoPanic ReservedBacked OwnedImpliesStored\nCHECK_DEADLOCK FALSE\n'
                 % (fuel, ', '.join('"%s"' % k for k in (kinds or GEN_KINDS))))
     res = run_tlc('MC_SwarmGen', cfg, pid, workers=1, simulate='num=%d' % (3 * n), depth=90, seed_arg=seed(), timeout=300, tag='gen')
     if res['violation']:
@@ -360,6 +360,24 @@ def model_scripts(pid, n, kinds=None, fuel=7):
         if len(uniq) >= n:
             break
     return [G.from_model(sc, i) for i, sc in enumerate(uniq)], res
+
+
+def design_live(pid, tier):
+    """C02 on the model: MC_SwarmLive.tla, honest environment + weak fairness, <>Complete"""
+    cfg = os.path.join(outdir(pid), 'live.cfg')
+    big = tier != 'quick'
+    with open(cfg, 'w') as f:
+        f.write('SPECIFICATION LSpec\nCONSTANTS\n  Peers = {%s}\n  NPieces = 3\n  NBlocks <- N1x3\n  EndGame = 2\n  MaxUnchoked = 1\n  OptRounds = 3\n'
+                '  KALimit = 2\n  Pipeline = {2}\n  Rates = {0}\n  FrameKinds = {}\n  BFMenu = {}\n  Own0 = {}\n  HS0 = FALSE\n  Has <- %s\n  Leavers = {%s}\n'
+                'INVARIANTS NoDeadEnd OwnedImpliesStored ReservedBacked\nPROPERTIES EventuallyComplete\nCHECK_DEADLOCK FALSE\n'
+                % (('"a", "b", "c"', 'HasB', '"a"') if big else ('"a", "b"', 'HasA', '"b"')))
+    res = run_tlc('MC_SwarmLive', cfg, pid, workers=8 if tier == 'quick' else 14, timeout=5400, tag='live', xmx='16g')
+    viol = None
+    if res['violation']:
+        import re
+        m = re.search(r'(Invariant|[Pp]roperty) (\w+) (is|was) violated', res['stdout'])
+        viol = 'MC_SwarmLive.tla (honest environment, fairness) violates %s' % (m.group(2) if m else 'a property')
+    return res, viol
 
 
 def run_families(pid, plan, rng):
@@ -377,7 +395,7 @@ def run_families(pid, plan, rng):
     return S, raw, enc
 
 
-def swarm_check(pid, tier, plan, kinds, design_over=None, extra_oracles=(), vacuity=None, assumptions=(), replay=None, rule=''):
+def swarm_check(pid, tier, plan, kinds, design_over=None, extra_oracles=(), vacuity=None, assumptions=(), replay=None, rule='', live=False):
     V = Verdict(pid, tier)
     rng = random.Random(seed())
     if replay:
@@ -396,7 +414,7 @@ def swarm_check(pid, tier, plan, kinds, design_over=None, extra_oracles=(), vacu
             print('VIOLATION property=%s replay=%s' % (pid, replay))
             return 1
         return 0
-    res, design_viol = design_check(pid, tier, kinds, design_over)
+    res, design_viol = design_live(pid, tier) if live else design_check(pid, tier, kinds, design_over)
     if design_viol:
         V.violation(design_viol, {'design': True, 'tlc': res['stdout'][-3000:]}, None)
     S, raw, enc = run_families(pid, plan, rng)
@@ -482,7 +500,7 @@ def check_c01(tier, replay=None):
     plan = [(G.adversarial, 40 * m, {'kinds': ['Unchoke', 'Unchoke', 'Choke', 'Piece', 'Piece', 'PieceBad', 'PieceOdd', 'Have', 'Bitfield', 'serve', 'advance', 'close']}),
             (G.honest, 8 * m, {}), (G.upload, 8 * m, {}), (G.midflight, 10 * m, {}), (G.diskfault, 10 * m, {}), ('model', 20 * m, {})]
     return swarm_check('C01', tier, plan, ['Unchoke', 'Bitfield', 'Piece', 'Bad'],
-                       design_over=dict(Fuel=3, BFMenu='{{1, 2}}') if tier == 'quick' else dict(Fuel=4, MaxQ=2),
+                       design_over=dict(Fuel=3, BFMenu='{{1, 2}}', Peers='{a, b}', NBlocks='N1x2') if tier == 'quick' else dict(Fuel=4, MaxQ=2),
                        vacuity={'completions': 10, 'bad_piece_exits': 1}, replay=replay,
                        rule='C01: disk holds only good pieces (TDisk binds the spec store to the scanned directory), owned/served/advertised implies stored, a corrupt assembly ends the task without a write.')
 
@@ -492,8 +510,9 @@ def check_c02(tier, replay=None):
     plan = [(G.honest, 32 * m, {}), (G.handover, 10 * m, {})]
     return swarm_check('C02', tier, plan, ['Unchoke', 'Bitfield', 'Piece', 'Have'],
                        design_over=dict(Fuel=3, BFMenu='{{1, 2}}') if tier == 'quick' else dict(Fuel=4, MaxQ=2),
-                       extra_oracles=[oracle_c02], vacuity={'completions': 40}, replay=replay,
-                       assumptions=['liveness on the implementation is tested with a virtual-time bound of 25 s after the last scripted action'],
+                       extra_oracles=[oracle_c02], vacuity={'completions': 40}, replay=replay, live=True,
+                       assumptions=['liveness on the implementation is tested with a virtual-time bound of 25 s after the last scripted action',
+                                    'model: honest environment of MC_SwarmLive.tla (a staying peer whose connection the client closed connects again), weak fairness'],
                        rule='C02: honest swarms (every piece offered by a staying honest peer; other peers leave at arbitrary points; random geometry, distribution, '
                             'segmentation, incoming/outgoing) must end with byte-identical output files, no panic, session alive.')
 
@@ -510,8 +529,9 @@ def check_c08(tier, replay=None):
 def check_c09(tier, replay=None):
     m = mult(tier)
     plan = [(G.upload, 36 * m, {}), (G.optimistic, 6 * m, {}), ('model', 12 * m, {})]
-    return swarm_check('C09', tier, plan, ['Unchoke', 'Bitfield', 'Piece', 'Request'],
-                       design_over=dict(NPieces=1, NBlocks='N1', Fuel=3, BFMenu='{{1}}') if tier == 'quick' else dict(NPieces=1, NBlocks='N1', Fuel=5, BFMenu='{{1}}', MaxQ=2),
+    return swarm_check('C09', tier, plan, ['Bitfield', 'Request', 'Interested', 'NotInterested'] if tier == 'quick' else ['Unchoke', 'Bitfield', 'Piece', 'Request', 'Interested'],
+                       design_over=dict(Peers='{a}', NPieces=2, NBlocks='N1x2', Own0='{1}', Fuel=5, BFMenu='{{2}}', TickFuel=1, Rates='{0}') if tier == 'quick'
+                       else dict(NPieces=2, NBlocks='N1x2', Own0='{1}', Fuel=4, BFMenu='{{2}, {}}', TickFuel=1, Rates='{0}', MaxQ=2),
                        vacuity={'pieces_served': 15}, replay=replay,
                        rule='C09: after a download a leecher requests in-range, zero-length, 16 KiB, over-long, out-of-range, wrapping (begin+len >= 2^32), unknown-index and '
                             'not-owned ranges, before and after being choked by a rotation; every Piece frame on the wire must answer an outstanding request with the stored bytes while unchoked.')
